@@ -4,15 +4,15 @@ from checklib import *
 
 # per property: operation families (name, n quick, n thorough, chunks thorough), theorem-module note
 PROPS = {
-  'C01': {'families': [('chess', 400, 24000), ('proc', 8, 12)]},
+  'C01': {'families': [('chess', 400, 24000), ('edges', 1, 200000), ('proc', 8, 12)]},
   'C02': {'families': [('chess', 400, 24000)]},
   'C03': {'families': [('chess', 400, 24000)]},
   'C09': {'families': [('chess', 400, 24000), ('hashdiff', 300, 30000)]},
-  'C10': {'families': [('chess', 400, 24000)]},
+  'C10': {'families': [('chess', 400, 24000), ('edges', 1, 200000)]},
   'C11': {'families': [('chess', 300, 12000), ('fenfuzz', 6000, 1000000)]},
-  'C12': {'families': [('attacks', 3000, 200000), ('chess', 200, 8000)]},
+  'C12': {'families': [('attacks', 3000, 200000), ('chess', 200, 8000), ('edges', 1, 200000)]},
   'C17': {'families': [('chess', 400, 24000)]},
-  'C04': {'families': [('search', 120, 6000), ('deep', 160, 20000)]},
+  'C04': {'families': [('search', 120, 6000), ('deep', 160, 20000), ('dialog', 60, 3000), ('conc', 60, 3000)]},
   'C05': {'families': [('search', 120, 6000), ('time', 3000, 300000), ('timed', 40, 1500), ('dialog', 60, 2000), ('conc', 60, 3000)]},
   'C13': {'families': [('search', 120, 6000), ('deep', 60, 8000)]},
   'C06': {'families': [('conc', 150, 8000), ('dialog', 100, 4000), ('proc', 12, 300)]},
@@ -21,7 +21,7 @@ PROPS = {
   'C14': {'families': [('tt', 3000, 300000)]},
   'C15': {'families': [('eval', 3000, 300000)]},
   'C16': {'families': [('evalc', 1000, 60000), ('eval', 500, 20000), ('ecache', 2000, 200000)]},
-  'C18': {'families': [('see', 1500, 100000)]},
+  'C18': {'families': [('see', 1200, 100000), ('seebat', 500, 60000)]},
   'C19': {'families': [('order', 1500, 100000)]},
 }
 
@@ -80,7 +80,7 @@ def run_property(prop, tier):
                 jobs.append(('regress', None, lines))
         for fam, nq, nt in cfg['families']:
             n = nq if tier == 'quick' else nt
-            for ci, cn in enumerate(chunks_for(n, tier)):
+            for ci, cn in enumerate(chunks_for(n if fam != "edges" else 1, tier)):
                 jobs.append((fam, [fam, str(seed * 1000 + ci), str(cn), tier], None))
 
         def do(job):
